@@ -1,0 +1,9 @@
+//go:build !verif
+
+package sugardb
+
+// No-op twins of the verification hooks in verif_evict_on.go (build tag "verif").
+
+func (server *SugarDB) verifCacheSpawn() uint64 { return 0 }
+
+func (server *SugarDB) verifCacheEnter(ticket uint64) func() { return func() {} }
